@@ -257,12 +257,26 @@ fn run_field<F: FieldLike>(ctx: &Ctx, rec: &mut Rec) {
             if rep % n != w {
                 continue;
             }
-            for len in [0usize, 1, 2, 3, 17] {
-                let xs: Vec<B> = (0..len).map(|i| if (rep + i) % 5 == 0 { zoo[rand_range(&mut rng, zoo.len())].0.clone() } else { rand_below(&mut rng, &f.p) }).collect();
+            // long lists (lazy / chunked reduction strategies): a few per run, filled with one extreme value
+            // (all internal residues just below p, just above 0, ...), an arithmetic progression of such
+            // values, or random elements
+            let long: Vec<usize> = if rep < 64 { vec![[31usize, 32, 33, 63, 64, 65, 100, 127, 128, 129, 255, 256, 257, 1000, 1025][rep % 15]] } else { vec![] };
+            for len in [0usize, 1, 2, 3, 17].into_iter().chain(long.into_iter()) {
+                let is_long = len > 17;
+                let extremes: Vec<&B> = zoo.iter().filter(|z| z.1 == "montgomery-extreme" || z.1 == "p-1" || z.1 == "-R").map(|z| &z.0).collect();
+                let base = extremes[(rep / 15) % extremes.len()].clone();
+                let xs: Vec<B> = (0..len).map(|i| {
+                    if is_long {
+                        match (rep / 15) % 3 { 0 => base.clone(), 1 => f.mul(&base, &b(1 + i as u64)), _ => rand_below(&mut rng, &f.p) }
+                    } else if (rep + i) % 5 == 0 { zoo[rand_range(&mut rng, zoo.len())].0.clone() } else { rand_below(&mut rng, &f.p) }
+                }).collect();
                 let ys: Vec<B> = (0..len).map(|_| rand_below(&mut rng, &f.p)).collect();
                 let lx: Vec<F> = xs.iter().map(F::from_b).collect();
                 let ly: Vec<F> = ys.iter().map(F::from_b).collect();
                 for form in &folds {
+                    if is_long && form.kind == FoldKind::SumOfProducts {
+                        continue; // const-generic lengths
+                    }
                     let name = format!("{}: {}", F::NAME, form.name);
                     rec.form(&name);
                     rec.eval(&(F::NAME, form.name, xs.iter().map(|x| x.to_bytes_le()).collect::<Vec<_>>()), len == 0);
